@@ -26,7 +26,7 @@ pub fn replay(prop: &str, line: &str, em: &mut Emitter) {
         "gsess" => gsess::run_case(&toks, em),
         "decomp" => c08::run_case(&toks, em),
         "cssp" => c01::run_case(&toks, em),
-        "conn" | "tlsgate" => conn::run_case(&toks, em),
+        "conn" | "tlsgate" | "nlagate" => conn::run_case(&toks, em),
         "gui" => c20::run_case(&toks, em),
         "strict" => { let line = toks.join(" "); em.case(&line, move || crate::common::Obs::new("ok".into()).nt(true).tag("strict")); }
         "seal" => c16::run_case(&toks, em),
